@@ -257,6 +257,12 @@ def roles_run(ctx):
                     violations.append({"class": "model-disagreement",
                                        "what": "all hypotheses of P3R.C09O.compile_defuse_of_fuseKeeps hold but the compiled circuit is not certified",
                                        "replay": {"correspondence": "driver defuse line"}, "no_input": True})
+                # P3R.C09F.fuseKeeps_total / compile_defuse (total): g=1, p=1, a=1 => f=1 and c=1
+                if all(kv.get(x) == "1" for x in ("g", "p", "a")) and (kv.get("f") == "0" or kv.get("c") == "0"):
+                    violations.append({"class": "model-disagreement",
+                                       "what": "hintsGuarded, privOk and operandsGuarded hold but fuseKeeps / the certificate of the compiled "
+                                               f"circuit fails (f={kv.get('f')} c={kv.get('c')}; contradicts P3R.C09F.fuseKeeps_total / compile_defuse)",
+                                       "replay": {"correspondence": "driver defuse line"}, "no_input": True})
                 ok_ = f"opt.guarded={kv.get('g')}.privOk={kv.get('p')}.operandsGuarded={kv.get('a')}.noTableOutputsUsed={kv.get('t')}.fuseKeeps={kv.get('f')}.cert={kv.get('c')}"
                 defuse[ok_] = defuse.get(ok_, 0) + 1
                 if cur_ok:
@@ -304,8 +310,9 @@ def roles_run(ctx):
                 "cross-checked), k = optKeeps (certificate of the lowered list => of the optimised list; the remaining per-program step of "
                 "P3R.C09C.compiled_bus_balanced_of_optKeeps: guarded=1.privOk=1.optKeeps=1 are the programs on which that theorem applies); "
                 "a / t = operandsGuarded / noTableOutputsUsed of the builder state, f = fuseKeeps (certificate of the de-duplicated list => of the fused list): "
-                "P3R.C09O.lower_dedup_defuse is total (g=1,p=1,a=1 => d=1 is cross-checked), the fusion step f is the one remaining per-program "
-                "hypothesis of P3R.C09O.compiled_bus_balanced_of_fuseKeeps (opt.* counts: the programs on which it applies)"}
+                "P3R.C09O.lower_dedup_defuse is total (g=1,p=1,a=1 => d=1 is cross-checked); the fusion step f is a theorem too "
+                "(P3R.C09F.fuseKeeps_total; g=1,p=1,a=1 => f=1 and c=1 are cross-checked): P3R.C09F.compiled_bus_balanced has no per-program "
+                "hypothesis (opt.* counts: the programs on which it applies)"}
     for k in ("busaudit_class_counts", "busaudit_samples", "busaudit_proved", "busaudit_prove_notes"):
         if k in npo_cov:
             cov[k] = npo_cov[k]
@@ -358,7 +365,8 @@ CHECKS = {
     "C09": {
         "lean_modules": ["P3R.Props.C09", "P3R.Model.DefUse", "P3R.Props.C09Total", "P3R.Witness.C09Total",
                          "P3R.Props.C09Compile", "P3R.Witness.C09Compile",
-                         "P3R.Props.C09Opt", "P3R.Witness.C09Opt"],
+                         "P3R.Props.C09Opt", "P3R.Witness.C09Opt",
+                         "P3R.Props.C09Fuse", "P3R.Witness.C09Fuse"],
         "lean_exes": ["p3r_driver_c09n"],
         "theorems": ["P3R.C09.one_creator", "P3R.C09.mult_eq_reads", "P3R.C09.created_iff_defined",
                      "P3R.C09.net_zero_iff", "P3R.C09.bus_balanced",
@@ -385,7 +393,22 @@ CHECKS = {
                      "P3R.C09O.compile_defuse_of_fuseKeeps", "P3R.C09O.compiled_bus_balanced_of_fuseKeeps",
                      "P3R.Witness.C09Opt.good_operandsGuarded", "P3R.Witness.C09Opt.good_fuseKeeps", "P3R.Witness.C09Opt.good_fuses",
                      "P3R.Witness.C09Opt.tbl_excluded", "P3R.Witness.C09Opt.hnt_hdu",
-                     "P3R.Witness.C09Opt.fuse_breaks_plain_defuse"],
+                     "P3R.Witness.C09Opt.fuse_breaks_plain_defuse",
+                     # fusion side (Props/C09Fuse.lean): the fusion pass keeps the certificate for EVERY op list that also carries the
+                     # forward certificate fwdFrom (non-Add/Mul rows have b touched earlier); lowering emits it, dedup keeps it;
+                     # fuseKeeps is a theorem, compile_defuse / compiled_bus_balanced are unconditional
+                     "P3R.C09F.hdu_filterMap", "P3R.C09F.prod_read", "P3R.C09F.prod_write", "P3R.C09F.prod_touched",
+                     "P3R.C09F.applyF_mul", "P3R.C09F.applyF_cases", "P3R.C09F.add_before_mul", "P3R.C09F.transfer",
+                     "P3R.C09F.surgery_keeps_hdu", "P3R.C09F.defStep_pushed", "P3R.C09F.Sim.step", "P3R.C09F.sim_scanTo",
+                     "P3R.C09F.defGe_scanTo", "P3R.C09F.tryFuse_full", "P3R.C09F.chosen_notIn", "P3R.C09F.chosen_addB",
+                     "P3R.C09F.chosen_facts", "P3R.C09F.chosen_mul_before_add",
+                     "P3R.C09F.fuse_preserves_hdu", "P3R.C09F.fuse_preserves_defuse",
+                     "P3R.C09F.step_claimF", "P3R.C09F.dedup_preserves_fwd", "P3R.C09F.emit_shapeF", "P3R.C09F.lower_fwd",
+                     "P3R.C09F.lower_dedup_certs", "P3R.C09F.lower_fuse_defuse", "P3R.C09F.fuseKeeps_total",
+                     "P3R.C09F.compile_defuse", "P3R.C09F.compiled_bus_balanced",
+                     "P3R.C09F.filterValid_fix", "P3R.C09F.filterValid_addend_before_mul",
+                     "P3R.Witness.C09Fuse.good_certs", "P3R.Witness.C09Fuse.bwd_muladd_breaks",
+                     "P3R.Witness.C09Fuse.fwd_list_certs", "P3R.Witness.C09Fuse.late_addend_not_fused"],
         "run": roles_run,
         "trusted_base": ["non-primitive rows: the theorems cover the role scan of generate_preprocessed_columns for ANY per-plug-in request function; "
                          "the concrete request functions (posRow / recRow / sumExposed: Poseidon2 sponge + arity-2/arity-4 Merkle rows, recompose with / without "
